@@ -9,7 +9,7 @@ def commits():
 SIM = "seeded deterministic simulation (hpsim): "
 C = {
  "C01": ("exploration", "§5 C01",
-   "Every parse call of simulated connections, prefix sweeps (EOF at every byte), reuse histories and adversarial inputs up to 64 KiB (quick) / 1 MiB (thorough) is made with the buffer and the header array placed against PROT_NONE guard pages or at a chosen alignment with stale/future/bait tails, under every entry point, sampled configs, capacities 0..64 and forced backends; a panic, signal, hang (per-run watchdog), stack overflow (the simulated caller has a 1 MiB stack) or tail-dependent answer is a violation. Sampled, so evidence not proof; the debug-assertion build variant and the Miri engine add arithmetic-overflow, debug_assert and never-dereferenced out-of-bounds detection.",
+   "Every parse call of simulated connections, prefix sweeps (EOF at every byte), reuse histories and adversarial inputs up to 64 KiB (quick) / 1 MiB (thorough) is made with the buffer and the header array placed against PROT_NONE guard pages or at a chosen alignment with stale/future/bait tails, under every entry point, sampled configs, capacities 0..64 and forced backends; a panic, signal, hang (per-run watchdog), stack overflow (the simulated caller has a 1 MiB stack) or tail-dependent answer is a violation. Sampled, so evidence not proof; the debug-assertion build of the simulator (30% of the runs), a slice of the plan on every other built variant (compile-time sse4.2 / avx2, SIMD disabled, no_std: code that only exists at their cfg-lattice points) and the Miri engine add arithmetic-overflow, debug_assert and never-dereferenced out-of-bounds detection.",
    "guard pages catch dereferenced out-of-bounds accesses only; sizes <= 1 MiB; x86-64 only; Miri engine runs a small batch",
    SIM + "placement faults (guard pages, alignment, tails, relocation, stable buffer) + EOF at every point; no-panic/no-signal/tail-independence monitors; debug-profile variant; Miri batch"),
  "C02": ("fault_enumeration", "§5 C02",
